@@ -40,7 +40,7 @@ SPEC = {
     "floors": {
         "quick": {
             "evaluations": 250_000, "distinct_nontrivial": 2500, "selftest_spec_examples": 21, "spec_examples_run": 21,
-            "roundtrips": 30_000, "roundtrips_arb-indexed": 5000, "roundtrips_arb-sequential": 5000, "roundtrips_boundary": 15_000,
+            "roundtrips": 30_000, "roundtrips_arb-indexed": 5000, "roundtrips_arb-sequential": 5000, "roundtrips_boundary": 10_000, "roundtrips_boundary-sequential": 5000,
             "ref_judged_rendered": 30_000, "ref_rendered_exact": 30_000, "ref_amounts_checked_exact": 150_000,
             "mutated_uris": 60_000, "from_uri_calls": 150_000, "from_uri_ok": 15_000, "ref_judged_accepted": 15_000, "ref_accepted_agree": 15_000,
             "rerender_checks": 15_000, "total_checks": 40_000, "fuzz_strings": 100_000, "fuzz_accepted": 1000,
